@@ -16,3 +16,14 @@ def rnd_list(rng, vector_name):
 def kexinit(rng):
     ls = [rnd_list(rng, v) for v in KEX_VECTORS] + [rng.choice(['-', '656e2d5553', '656e2d5553,656e2d4742']), rng.choice(['-', '656e2d5553'])]
     return 'kexenc %s %s %d %d' % (framegen.rnd_bytes(rng, 16).hex(), '|'.join(ls), rng.randint(0, 1), rng.choice([0, 0, 5, 2 ** 32 - 1]))
+
+
+def ec_blob_line(rng):
+    """an ECDSA host key blob (RFC 5656 3.1): coordinates over the whole width of the field and, often, with leading zero
+    octets in one or in both of them (the SEC 1 point keeps those octets)"""
+    ident, size, bits = rng.choice([('nistp256', 32, 256), ('nistp384', 48, 384), ('nistp521', 66, 521)])
+
+    def coord():
+        k = rng.choice([bits, bits, bits - 9, bits - 17, bits - 30])
+        return rng.getrandbits(k) | (1 << (k - 1)) | 3      # neither tiny nor a power of 256 (asn1crypto cannot hold those)
+    return 'ecblob %s %d %d %d' % (ident.encode('ascii').hex(), size, coord(), coord())
